@@ -45,6 +45,24 @@ FIXED_TYPES = [
 _SCH = {}
 
 
+def open_schema():
+    """SEQUENCE {id INTEGER, blob ANY DEFINED BY id {1: INTEGER, 2: SEQUENCE {a INTEGER, b OCTET STRING OPTIONAL}, 3: SEQUENCE OF
+    BOOLEAN}, z [9] INTEGER OPTIONAL}: decoded with decodeOpenTypes=True (the schema object carries the switch for the drivers)."""
+    if 'OPEN' not in _SCH:
+        from pyasn1.type import univ, opentype, namedtype, tag as ptag
+        inner = {1: univ.Integer(), 2: univ.Sequence(componentType=namedtype.NamedTypes(
+            namedtype.NamedType('a', univ.Integer()), namedtype.OptionalNamedType('b', univ.OctetString()))), 3: univ.SequenceOf(componentType=univ.Boolean())}
+        sch = univ.Sequence(componentType=namedtype.NamedTypes(
+            namedtype.NamedType('id', univ.Integer()), namedtype.NamedType('blob', univ.Any(), openType=opentype.OpenType('id', inner)),
+            namedtype.OptionalNamedType('z', univ.Integer().subtype(implicitTag=ptag.Tag(ptag.tagClassContext, ptag.tagFormatSimple, 9)))))
+        _SCH['OPEN'] = sch
+    return _SCH['OPEN']
+
+
+def dec_opts(spec):
+    return {'decodeOpenTypes': True} if spec is not None and spec is _SCH.get('OPEN') else {}
+
+
 def fixed_schema(name):
     if name not in _SCH:
         _SCH[name] = build.schema(dict(FIXED_TYPES)[name])
@@ -82,7 +100,7 @@ def judge(out_value, rest):
 def one(b, codec, mode, spec):
     """-> None | (kind, sig, message)"""
     if mode == 'oneshot':
-        d = lib.decode(codec, b, spec)
+        d = lib.decode(codec, b, spec, **dec_opts(spec))
         if d.ok:
             why = judge(d.value, d.rest)
             return ('bad-value', why.split(' ')[1] if why else '', why) if why else None
@@ -95,7 +113,7 @@ def one(b, codec, mode, spec):
     bound = 8 * (len(b) + 1) + 16
     items = []
     try:
-        it = iter(lib.DEC[codec].StreamingDecoder(st, asn1Spec=spec) if spec is not None else lib.DEC[codec].StreamingDecoder(st))
+        it = iter(lib.DEC[codec].StreamingDecoder(st, asn1Spec=spec, **dec_opts(spec)) if spec is not None else lib.DEC[codec].StreamingDecoder(st))
         while True:
             try:
                 x = next(it)
@@ -129,7 +147,7 @@ def trickle(b, codec, spec):
         bound = 8 * (n + 1) + 32
         items, polls, fed = [], 0, False
         try:
-            it = iter(lib.DEC[codec].StreamingDecoder(st, asn1Spec=spec) if spec is not None else lib.DEC[codec].StreamingDecoder(st))
+            it = iter(lib.DEC[codec].StreamingDecoder(st, asn1Spec=spec, **dec_opts(spec)) if spec is not None else lib.DEC[codec].StreamingDecoder(st))
             steps = 0
             while True:
                 steps += 1
@@ -193,7 +211,7 @@ def run_input(b, specs, col=None, label='', nontriv_hint=True):
 
 
 def fixed_specs():
-    return [('none', None, None)] + [('fixed:' + n, fixed_schema(n), t) for n, t in FIXED_TYPES]
+    return [('none', None, None)] + [('fixed:' + n, fixed_schema(n), t) for n, t in FIXED_TYPES] + [('fixed:OPENTYPE', open_schema(), None)]
 
 
 def run_case(case, col=None):
@@ -258,6 +276,18 @@ def run_shard(desc, seed, tier, col):
             return {'b': d.bytes(d.int(0, 24)), 'label': 'random'}
         if r <= 3:
             return {'b': grammar_tlv(d, 3), 'label': 'grammar'}
+        if r == 6 and d.pct(40):
+            # records with an ANY DEFINED BY field (decoded with open type resolution, see open_schema), intact or damaged
+            gid = d.pick([1, 2, 3, 4])
+            inner = {1: x690.der(INT, d.int(-300, 70000)), 2: x690.der(dict(FIXED_TYPES)['SEQUENCE'], {'a': d.int(0, 300), 'b': d.bytes(d.int(0, 4))}),
+                     3: b'\x30\x06\x01\x01\xff\x01\x01\x00', 4: x690.der(ir.mk('OCTETSTRING'), d.bytes(3))}[gid]
+            if d.pct(50):
+                inner = inner[:d.int(1, max(1, len(inner) - 1))] if d.pct(50) else mutate.mutate(d, inner)
+            body = x690.der(INT, gid) + inner + (b'\x89\x01\x07' if d.pct(50) else b'')
+            b = b'\x30' + x690.length(len(body)) + body if d.pct(60) else b'\x30\x80' + body + b'\x00\x00'
+            if d.pct(25):
+                b = mutate.mutate(d, b)
+            return {'b': b, 'label': 'open-type-record'}
         if r == 5 and d.pct(30):
             # a length octet sequence at the edge of what a stream's read() accepts (sys.maxsize and a few below, 2**63 .. above)
             import sys as _sys
